@@ -3223,6 +3223,7 @@ static int get_more_chars(struct scanner_s *scanner) {
             ptrdiff_t length;
 
             trail = ++lead;  /* trail points to the LF of the latest-read CRLF terminator */
+            nread -= 1;      /* this CRLF will be converted to just LF */
             do {
                 assert(lead <= bound);
                 lead = u_memchr(lead, UCHAR_CR, bound - lead);  /* look for the next CR */
@@ -3232,7 +3233,6 @@ static int get_more_chars(struct scanner_s *scanner) {
                     break;
                 } else if ((lead + 1 < bound) && (*(lead + 1) == UCHAR_NL)) {
                     /* end of CRLF-terminated line */
-                    nread -= 1; /* CRLF will be converted to just LF */
                     length = lead - trail;
                     break;
                 } else {
